@@ -280,6 +280,7 @@ class Engine:
     def solver(self, timeout_ms=None):
         s = z3.Solver()
         s.set('rlimit', 2000000)
+        s.set('timeout', 20000)     # belt and braces: the resource limit is the deterministic bound
         for f in self.facts:
             s.add(f)
         for c in self.pc:
@@ -320,6 +321,7 @@ class Engine:
         returns ('proved'|'refuted'|'unknown', model_or_None, seconds)"""
         s = z3.Solver()
         s.set('rlimit', 3000000)
+        s.set('timeout', 20000)
         for f in (self.facts if facts is None else facts):
             s.add(f)
         for c in (self.pc if pc is None else pc):
